@@ -66,6 +66,15 @@ class Dims:
                         del out["bit"]
                 return out
             if n in ("Div", "div_ceil"):
+                # the rounding-up idiom (a + w - 1) / w adds the divisor to the dividend: treat as div_ceil(a, w)
+                if n == "Div":
+                    from .terms import linear
+                    atoms, c = linear(a[0])
+                    rw = repr(a[1])
+                    if c == -1 and rw in atoms and atoms[rw][1] == 1 and len(atoms) == 2:
+                        rest = [v[0] for r, v in atoms.items() if r != rw and v[1] == 1]
+                        if len(rest) == 1:
+                            return dmul(self.of(rest[0]) or {}, self.of(a[1]) or {}, -1)
                 da, db = self.of(a[0]), self.of(a[1])
                 return dmul(da or {}, db or {}, -1)
             if n == "Rem":
